@@ -65,19 +65,19 @@ func genC12(x *Ctx) *c12Scen {
 	rid := 0
 	tp.Repeat(2, 4, 500, func(i int) {
 		sp := SvcSpec{ID: i, Root: c12Roots[rootPerm[i]], Dynamic: tp.G(5) != 4}
-		subPerm := tp.Perm(2 * len(c12Subs)) // (path, method) pairs
+		subPerm := tp.Perm(4 * len(c12Subs)) // (path, method) pairs
 		nInit := 0
 		maxR, moreR := 5, 600
 		crowdedSvc := false
 		if i == 0 && tp.Chance(140) {
-			maxR, moreR = 22, 960 // a crowded service: more routes than any preallocated slice, batch or small-table fast path
+			maxR, moreR = []int{22, 22, 44}[tp.G(3)], 975 // a crowded service: more routes than any preallocated slice, batch or small-table fast path
 			crowdedSvc = true
 			sc.Crowded = true
 			sp.Dynamic = true
 		}
 		tp.Repeat(1, maxR, moreR, func(k int) {
 			rid++
-			r := RouteSpec{ID: rid, Method: []string{"GET", "POST"}[subPerm[k]%2], Path: c12Subs[subPerm[k]/2]}
+			r := RouteSpec{ID: rid, Method: []string{"GET", "POST", "PUT", "DELETE"}[subPerm[k]%4], Path: c12Subs[subPerm[k]/4]}
 			r.Cond = tp.Chance(250)
 			if k == 0 || tp.G(3) != 0 { // initial route or pool route (added later by an admin task)
 				if nInit == k {
